@@ -511,6 +511,9 @@ func (u *Unit) builtin(fr *Frame, st *State, name string, c *ssa.CallCommon, arg
 	case "Slice":
 		// unsafe.Slice(ptr, n): a view of memory we do not model; only its length is known
 		n := u.toInt(args[1].(*Term))
+		if v, ok := u.byteView(fr, st, c, n); ok {
+			return v
+		}
 		r := u.ctx.FreshConst("unsafe_slice", SSlice)
 		u.assume(st, And(Eq(slen(r), n), Ge(soff(r), IntLit(0)), Ge(scap(r), n), Le(Add(soff(r), scap(r)), IntLit(9223372036854775807))))
 		u.note("unsafe.Slice: contents not modelled")
@@ -956,4 +959,78 @@ func (u *Unit) sprintfModel(st *State, args []Val) (Val, bool) {
 	u.assume(st, Ge(App(SInt, "strlen", r), IntLit(0)))
 	u.assume(st, Implies(And(allStr...), And(Eq(r, cat), Eq(App(SInt, "strlen", r), catLen))))
 	return r, true
+}
+
+// byteView: unsafe.Slice((*byte)(unsafe.Pointer(&x)), n) for an 8-byte integer
+// variable x: a snapshot of the little-endian bytes of x (amd64/arm64 layout;
+// later writes to x are not reflected - the views in this code base are read at
+// once). Bytes beyond the variable are unconstrained.
+func (u *Unit) byteView(fr *Frame, st *State, c *ssa.CallCommon, n *Term) (Val, bool) {
+	outer, ok := c.Args[0].(*ssa.Convert)
+	if !ok {
+		return nil, false
+	}
+	inner, ok := outer.X.(*ssa.Convert)
+	if !ok {
+		return nil, false
+	}
+	if pe := ptrElem(outer.Type()); pe == nil || !types.Identical(pe.Underlying(), types.Typ[types.Uint8]) {
+		return nil, false
+	}
+	srcElem := ptrElem(inner.X.Type())
+	if srcElem == nil {
+		return nil, false
+	}
+	b, ok := srcElem.Underlying().(*types.Basic)
+	if !ok || (b.Kind() != types.Int64 && b.Kind() != types.Uint64) {
+		return nil, false
+	}
+	p, ok := u.val(fr, st, inner.X).(*Term)
+	if !ok || p.Sort != SPtr {
+		return nil, false
+	}
+	x, ok := u.loadVal(st, srcElem, p).(*Term)
+	if !ok {
+		return nil, false
+	}
+	bsort, _ := u.sortOf(types.Typ[types.Uint8])
+	var bytes []*Term
+	switch {
+	case x.Sort == SInt && bsort == SInt:
+		// the two's complement value m of x and its base-256 digits, introduced as
+		// named constants with their defining linear equations (q_k = 256*q_{k+1} + b_k,
+		// 0 <= b_k <= 255, q_8 = 0) instead of div/mod terms the solvers cannot chain
+		m := u.ctx.Define("u64", Ite(Lt(x, IntLit(0)), Add(x, &Term{"18446744073709551616", SInt}), x))
+		u.assume(st, And(Ge(m, IntLit(0)), Lt(m, &Term{"18446744073709551616", SInt})))
+		q := m
+		for k := 0; k < 8; k++ {
+			bk := u.ctx.FreshConst("byte", SInt)
+			var qn *Term
+			if k == 7 {
+				qn = IntLit(0)
+			} else {
+				qn = u.ctx.FreshConst("quot", SInt)
+			}
+			u.assume(st, And(Eq(q, Add(Mul(IntLit(256), qn), bk)), Le(IntLit(0), bk), Le(bk, IntLit(255)), Ge(qn, IntLit(0))))
+			bytes = append(bytes, bk)
+			q = qn
+		}
+	case x.Sort == SBV64 && bsort == SBV8:
+		for k := 0; k < 8; k++ {
+			bytes = append(bytes, &Term{fmt.Sprintf("((_ extract %d %d) %s)", 8*k+7, 8*k, x.S), SBV8})
+		}
+	default:
+		return nil, false
+	}
+	ref := u.newRef(st, "byteview")
+	name := elemMapName(bsort)
+	hm := u.heapGet(st, name, bsort)
+	arr := u.ctx.FreshConst("byteview_arr", ArrSort(SInt, bsort))
+	var cur *Term = arr
+	for k, bt := range bytes {
+		cur = Store(cur, IntLit(int64(k)), bt)
+	}
+	st.heap[name] = u.ctx.Define(name, Store(hm, ref, cur))
+	u.note("unsafe.Slice over an 8-byte integer variable: little-endian snapshot of its bytes")
+	return u.ctx.Define("byteview", mkslice(ref, IntLit(0), n, n)), true
 }
